@@ -239,7 +239,12 @@ int main(int argc, char** argv) {
     signal(SIGPIPE, SIG_IGN);
     size_t next = 0;
     const std::string MARK = "\x01" "CASE\n";
+    int hangs = 0;
     while (next < lines.size()) {
+        if (hangs >= 2) {   // do not wait again and again: report the rest as not run
+            for (; next < lines.size(); ++next) printf("CRASH status=0 timeout=1 (not run: two scenarios before this one hung)\n");
+            break;
+        }
         int fd[2]; if (pipe(fd) != 0) { perror("pipe"); return 2; }
         fflush(stdout);
         pid_t pid = fork();
@@ -271,13 +276,14 @@ int main(int argc, char** argv) {
         };
         while (true) {
             struct pollfd pfd = { fd[0], POLLIN, 0 };
-            int pr = poll(&pfd, 1, 60000);
+            int pr = poll(&pfd, 1, 20000);      // a scenario runs for milliseconds (step bound 30000): 20 s without output = the child hangs
             if (pr <= 0) { timed_out = true; kill(pid, SIGKILL); break; }
             ssize_t n = read(fd[0], buf, sizeof(buf)); if (n <= 0) break; out.append(buf, static_cast<size_t>(n));
             flush_complete(false, 0);
         }
         close(fd[0]);
         int status = 0; waitpid(pid, &status, 0);
+        if (timed_out) ++hangs;
         flush_complete(true, status);
         if (done_cases == 0) { printf("CRASH status=%d timeout=%d (child produced nothing)\n", status, timed_out ? 1 : 0); done_cases = 1; }
         next += done_cases;
